@@ -549,36 +549,48 @@ Proof.
   rewrite rev_length, Nat.sub_diag. reflexivity.
 Qed.
 
+Lemma firstn_rev_tail (a l : list doc) : firstn (length l) (rev (a ++ l)) = rev l.
+Proof.
+  rewrite rev_app_distr. rewrite firstn_app, rev_length, Nat.sub_diag. cbn [firstn].
+  rewrite app_nil_r. rewrite <- (rev_length l). apply firstn_all.
+Qed.
+
 (* one request served by the model in a state satisfying the invariant passes
    both per-request clauses, whatever the provider hands out later *)
 Lemma model_req_ok s rq ext : inv s ->
-  closed_ok (model_req s rq) = true
+  closed_ok (rev (docs_of (ext ++ w_log (snd s)))) (model_req s rq) = true
   /\ endpoint_ok (rev (docs_of (ext ++ w_log (snd s)))) (model_req s rq) = true.
 Proof.
   destruct s as [m w]. intros [_ HR]. cbn [fst snd] in HR.
   unfold model_req, closed_ok, endpoint_ok, is_closed. cbn [fst snd oq_ok_after oq_loc oq_status oq_fwd oq_cookies].
+  rewrite docs_of_app, Nnat.Nat2N.id, firstn_rev_tail.
   unfold serve, serve_gate. destruct (m_ready m) eqn:R.
   - specialize (HR eq_refl). rewrite latest_ok_docs in HR.
     destruct (docs_of (w_log w)) as [|d0 rest] eqn:DL; [discriminate|].
     cbn [hd_error] in HR. inversion HR; subst d0.
-    replace (N.eqb (N.of_nat (length (m_ep m :: rest))) 0) with false
-      by (symmetry; apply N.eqb_neq; cbn [length]; lia).
-    split; [reflexivity|].
-    destruct (N.eqb (d_issuer (m_ep m)) 0); [reflexivity|].
-    unfold after_gate. destruct (rq_path rq); cbn [r_location]; try reflexivity.
-    rewrite docs_of_app, DL. rewrite Nnat.Nat2N.id. cbn [length].
-    replace (S (length rest) - 1)%nat with (length rest) by lia.
-    rewrite nth_error_rev_mid.
-    destruct (N.eqb (d_auth (m_ep m)) 0); [reflexivity|apply N.eqb_refl].
+    split.
+    + destruct (existsb has_issuer (rev (m_ep m :: rest))) eqn:X; [reflexivity|].
+      assert (Hi : has_issuer (m_ep m) = false).
+      { destruct (has_issuer (m_ep m)) eqn:Hh; [|reflexivity].
+        assert (existsb has_issuer (rev (m_ep m :: rest)) = true); [|congruence].
+        apply existsb_exists. exists (m_ep m). split; [|exact Hh].
+        apply -> in_rev. left. reflexivity. }
+      unfold has_issuer in Hi. apply negb_false_iff in Hi. rewrite Hi. reflexivity.
+    + destruct (N.eqb (d_issuer (m_ep m)) 0); [reflexivity|].
+      unfold after_gate. destruct (rq_path rq); cbn [r_location]; try reflexivity.
+      cbn [length]. replace (S (length rest) - 1)%nat with (length rest) by lia.
+      rewrite nth_error_rev_mid.
+      destruct (N.eqb (d_auth (m_ep m)) 0); [reflexivity|apply N.eqb_refl].
   - destruct (Z.ltb (rq_patience rq) init_wait); cbn; split; try reflexivity;
-      destruct (N.eqb _ 0); reflexivity.
+      destruct (existsb has_issuer _); reflexivity.
 Qed.
 
 Lemma model_steps_ok ops : forall s steps s1,
   inv s -> model_steps s ops = (steps, s1) ->
   extends (snd s) (snd s1)
   /\ forall ext q, In q (flat_map reqs_of_step steps) ->
-       closed_ok q = true /\ endpoint_ok (rev (docs_of (ext ++ w_log (snd s1)))) q = true.
+       closed_ok (rev (docs_of (ext ++ w_log (snd s1)))) q = true
+       /\ endpoint_ok (rev (docs_of (ext ++ w_log (snd s1)))) q = true.
 Proof.
   induction ops as [|o r IH]; intros s steps s1 I; cbn [model_steps].
   - intros H; inversion H; subst. split; [apply extends_refl|intros ext q []].
@@ -611,7 +623,9 @@ Proof.
   apply andb_true_intro. split; [apply andb_true_intro; split|].
   - apply forallb_forall. intros q Hq. apply in_app_or in Hq. destruct Hq as [Hq|Hq].
     + apply in_map_iff in Hq. destruct Hq as [rq [<- _]].
-      apply (model_req_ok (fresh_mw, w) rq []), inv_fresh.
+      pose proof (model_req_ok (fresh_mw, w) rq (w_log (snd s1)) (inv_fresh _ _ _)) as [E _].
+      cbn [snd fresh_world w_log] in E. subst w. cbn [fresh_world w_log] in E.
+      rewrite app_nil_r in E. exact E.
     + apply (Q [] q Hq).
   - apply forallb_forall. intros q Hq. apply in_app_or in Hq. destruct Hq as [Hq|Hq].
     + apply in_map_iff in Hq. destruct Hq as [rq [<- _]].
